@@ -77,6 +77,8 @@ func main() {
 		if *exhaustive != "off" {
 			runExhaustive(run.Thorough())
 		}
+	case "X02":
+		runExhaustiveOne()
 	case "X01":
 		runExhaustive(run.Thorough())
 	case "C02":
